@@ -140,14 +140,25 @@ PROPS = {
                      "is_valid_token / is_valid_user_token are external in unit sessions (their contracts are proved in unit store)",
                      "sessions are modelled abstractly in the accounting lemmas: a map from session ids to the selected database"],
     ),
+    "C20": dict(
+        units=["http"],
+        undecided=["the WebSocket transport (ws_ops::on_message pushes queued messages to the socket as they arrive: there is no reply vector to line up)",
+                   "that start_http_client gives every request a fresh Client and channel and joins the entries with ';' (tiny_http glue, 4 lines)",
+                   "messages other sessions send to this session's channel while the request runs (watch notices from concurrent writers): sequential semantics only",
+                   "what each individual command returns or queues (process_request is the trusted boundary here; its content is the subject of C01-C19)"],
+        assumptions=["the session's channel is modelled as a FIFO queue (Receiver::try_next takes the oldest message; nothing is lost or reordered)",
+                     "process_request only appends to the session's own channel and every execution is recorded in the ghost call history (trusted contract)",
+                     "`unwatch-all` leaves the session without subscriptions and Client::left releases its connection count (trusted here; the counter part is C17.left)",
+                     "str::trim and `!=` on &str are functions of the text (trusted shims)"],
+    ),
     "C19": dict(
         units=["consensus", "store"],
         undecided=["two concurrent clients (lock elision)", "'applied in the primary's order on every node' (replication)"],
         assumptions=["Change::new stamps the resolving change with the wall clock (any u64)"],
     ),
     "C10": dict(
-        units=["store", "consensus", "security", "ids", "oplog", "pending", "parser", "sessions"],
-        reachable={"store": STORE_FNS, "security": SECURITY_FNS, "pending": ["ReplicationMessage::new", "ReplicationMessage::ack", "ReplicationMessage::replicated", "ReplicationMessage::is_full_acknowledged",
+        units=["store", "consensus", "security", "ids", "oplog", "pending", "parser", "sessions", "http"],
+        reachable={"http": ["process_commands"], "store": STORE_FNS, "security": SECURITY_FNS, "pending": ["ReplicationMessage::new", "ReplicationMessage::ack", "ReplicationMessage::replicated", "ReplicationMessage::is_full_acknowledged",
                    "ReplicationMessage::count_replication", "ReplicationMessage::count_acknowledged", "ReplicationMessage::get_copy", "Databases::register_pending_opp",
                    "Databases::acknowledge_pending_opp", "Databases::get_pending_opp_copy"],
                    "parser": PARSER_FNS, "sessions": ["Database::inc_connections", "Database::dec_connections", "Database::connections_count", "release_previous_db",
